@@ -18,6 +18,10 @@ CHECKS = {
          "Generated pinsets are stored the way a peer leaves them (Raft snapshot via SnapshotSave, CRDT datastore), exported and imported with the real cmdutils StateManager onto a different non-empty installation and read back offline; every result is compared pin by pin with the harness's comparator. Histories of snapshot-save/clean with retention 1..6 over arbitrary pre-existing backup folders are checked after every step against a directory model, and the newest backup must be readable and hold the cleaned pinset. Peer address sets are saved, loaded and imported on a fresh host and must come back in the same order; files with malformed lines must load exactly their valid lines.",
          "Pins carry no Origins (known C08 finding would mask everything). /dnsaddr excluded (needs DNS). Starting a live peer on a snapshot is covered by C01/C17, not here.",
          "DESIGN.md §4 C14"),
+ "C09": ("exploration", "runtime reference-model monitor: step-driven histories on the real metrics Store/Checker and pubsubmon.Monitor compared after every step with a latest-arrival/episode model; cadence sub-check on a real Cluster with a recording monitor",
+         "Random histories of metric arrivals (valid/invalid, expired/live by construction, bursts beyond the window), peer removals and failure checks over the whole store or a chosen peerset are applied to the real Store and Checker; after every step LatestValid (and Monitor.LatestMetrics under nil/erroring/subset/superset peerset functions) must equal the model, and after every check the drained alerts must be exactly one per newly expired checked (peer,name), none for live ones, none repeated, with the stale metric gone one check later.",
+         "Expiries are one hour from now so no verdict depends on wall-clock expiry during a case. With >=6 samples the accrual detector decides when to alert: only safety is asserted there. Alerts for peers whose latest metric is invalid, and for a failure whose preceding renewal was wiped by RemovePeer before any check saw it, are not demanded.",
+         "DESIGN.md §4 C09"),
 }
 
 ALL = ["C%02d" % i for i in range(1, 19)]
